@@ -219,3 +219,59 @@ class audit_window:
         self.leaked = [p for p in created if p not in removed and os.path.exists(p)]
         self.created = created
         return False
+
+
+# ----------------------------------------------------------------------------- H-subst
+def install_subst_hook():
+    """Post-condition on Survey._var_repl_function: the returned path, resolved from the context element pyxform
+    passed in, must reach the element registered under that name (chain of .name's from the element up)."""
+    if "subst" in _installed or not _guard():
+        return
+    _installed.add("subst")
+    import icontract
+    from pyxform.survey import Survey
+
+    class SubstBroken(Exception):
+        pass
+
+    def chain(el):
+        names = []
+        cur = el
+        while cur is not None:
+            flat = (not isinstance(cur, Survey)) and hasattr(cur, "flat") and cur.get("flat")
+            if not flat:
+                names.append(cur.name)
+            cur = cur.parent
+        return list(reversed(names))
+
+    def reaches_target(self, matchobj, context, result, use_current=False, reference_parent=False):
+        _bump("subst")
+        if reference_parent:
+            _bump("subst_reference_parent")
+            return True
+        name = matchobj.group(2)
+        target = (self._xpath or {}).get(name)
+        if target is None:
+            return True
+        want = "/" + "/".join(chain(target))
+        got = result.strip()
+        if matchobj.group(1) is not None:
+            ok = got == f"instance('__last-saved'){want}"
+        elif got.startswith("/"):
+            ok = got == want
+        else:
+            rel = got[len("current()/"):] if got.startswith("current()/") else got
+            segs = chain(context) if context is not None else []
+            for part in rel.split("/"):
+                if part == "..":
+                    if segs:
+                        segs.pop()
+                elif part not in (".", ""):
+                    segs.append(part)
+            ok = "/" + "/".join(segs) == want
+        if not ok:
+            cn = "/" + "/".join(chain(context)) if context is not None else None
+            _note("subst_violations", f"${{{name}}} with context {cn} returned {got!r}; target is {want}")
+        return True
+
+    Survey._var_repl_function = icontract.ensure(reaches_target, error=SubstBroken)(Survey._var_repl_function)
